@@ -7,6 +7,7 @@ package c12
 
 import (
 	"fmt"
+	"runtime/debug"
 	"math/rand"
 	"sync"
 	"time"
@@ -287,10 +288,25 @@ func deviationCase(s sink.Sink, em *childrun.Emitter, rng *rand.Rand, idx int, s
 	cd := caseDesc{Index: idx, Point: "protocol-deviation", Kinds: []string{d.name}, Delivery: "real client, manipulated link"}
 	em.Progress(fmt.Sprintf("#%d protocol-deviation [%s]", idx, d.name))
 	applied := false
+	var crashed any
+	var crashStack string
 	func() {
-		defer func() { _ = recover() }()
+		defer func() {
+			if p := recover(); p != nil {
+				crashed, crashStack = p, string(debug.Stack())
+			}
+		}()
 		applied = d.run(rng, a)
 	}()
+	if crashed != nil {
+		// the library panicked in the goroutine that called into it (ProposeChannel, Update, Settle):
+		// in an application that is the death of the process, caused by what the remote party sent
+		abandon = true
+		s.Case("protocol-deviation|"+d.name, true)
+		s.Violation("C12/crash/"+childrun.PanicSite(crashStack), fmt.Sprintf("a call into the client panicked after the remote party's deviation %s: %v", d.name, crashed),
+			map[string]any{"case": cd, "stack": childrun.FirstLines(crashStack, 40)})
+		return
+	}
 	desc := "protocol-deviation|" + d.name
 	s.Case(desc, applied)
 	if !applied {
